@@ -19,7 +19,10 @@ search:  forced always-accepted / always-rejected / alternating / random / long-
          every update from its own record (target rate as configured), net direction of one-sided
          histories, bit-identical scale attributes after the window (Sivia-Skilling exempt), no
          change outside the window computed from the configured start step / duration / jump
-         interval, no change without a jump, no dependence on another chain's history
+         interval, no change without a jump, no dependence on another chain's history; in the runs
+         with a jump interval > 1 (and a quarter of the others) the proposal's own state is written
+         back with set_state once inside and once after the window (a checkpoint is part of a
+         chain's own history): the scale attributes must not change and the oracle stays the same
 """
 import json
 
